@@ -35,19 +35,32 @@ Deciding monitor M (boundary oracle = the packing model):
   'notes...', 'etc../x', 'a/..b'), leading-dot components ('...', '..a'), blanks - as data files AND as extra
   members of the control part; has_file / in / get_content / get_file / [] under the three spellings, iteration,
   and never-packed neighbours of such names ('a.b' next to 'a..b').
+* encoder variants of the parts (``var`` class): "gz/bz2/xz/lzma-compressed" and "uncompressed" name FORMATS, not one
+  byte pattern per format.  Three of four parts are therefore written with non-default but valid encoder parameters
+  (VARIANTS, ~110 of them): legacy .lzma streams with other lc/lp/pb, dictionary sizes, presets 0..9 / extreme and
+  a header that states the uncompressed size; .xz with check NONE/CRC32/CRC64/SHA256, presets, delta / BCJ filter
+  chains, other LZMA2 properties and several concatenated streams (incl. an empty one); gzip members written by hand
+  (levels 0..9, deflate strategies, small window, MTIME / FNAME / FCOMMENT / FEXTRA / FHCRC / FTEXT / OS / XFL) and
+  by the stdlib, several members per file; bzip2 levels 1..9 and several streams; plain tar as GNU / PAX / USTAR
+  with tarfile's record padding or the minimal two-block end.  All queries are judged exactly as for any other
+  package.  The set cases carry the same variants behind their part members.  zstd: the library has no zstd part
+  name, so there is nothing to write.
 """
 import bz2
 import gzip
 import hashlib
 import io
 import itertools
+import json
 import lzma
 import os
 import random
 import shutil
+import struct
 import subprocess
 import sys
 import tarfile
+import zlib
 
 from ..models import arwriter
 
@@ -85,7 +98,24 @@ RULE = ('Packages are generated from a seeded description (control fields incl. 
         '[] under name, ./name, /name); both parts are iterated (every packed file must be listed, nothing that was '
         'not packed may be listed, a listed file name must be found and readable under exactly the listed spelling); '
         'never-packed neighbours of the edge names (".." collapsed, dots stripped / added, blanks removed) must be '
-        'reported absent under the three spellings.')
+        'reported absent under the three spellings.  '
+        'Encoder-variant class (counters var:<part>:<variant>, var-head:*, set:with-encoder-variants*, monitors M.var.pkg, '
+        'M.var.query, M.var.accepted-served): for each part independently, three of four packages that store the part '
+        'with a given compression have it written with the next of that compression\'s non-default encoder variants '
+        '(per-shard round robin over VARIANTS: @VARIANTS@), the fourth with the encoder defaults as before; '
+        'lzma: presets 0-9, 2e, 9e, eight lc/lp/pb triples, dictionary sizes 4 KiB .. 3 MiB incl. 2^n+2^(n-1), match '
+        'finders, header with known uncompressed size; xz: the four integrity checks, presets 0-5, 9, 3e, 9e, delta and '
+        'x86/arm/armthumb/powerpc/ia64/sparc BCJ filters alone and chained (up to 4 filters), LZMA2 lc/lp/pb and '
+        'dictionary sizes, 2 and 3 concatenated streams with mixed checks/filters, an empty stream first / last; gz: '
+        'hand-written members with deflate levels 0-9, strategies fixed/huffman/rle/filtered, 512-byte window, MTIME, '
+        'FNAME (ASCII and latin-1), FCOMMENT, FEXTRA, FHCRC, FTEXT, all of them, OS and XFL bytes, stdlib gzip.compress '
+        'and GzipFile(filename=, mtime=), 2 and 3 members, an empty member first / last; bz2: levels 1-9, 2 and 3 '
+        'streams; uncompressed: GNU / PAX / USTAR tar with the 10240-byte record padding or the minimal 1024-byte end.  '
+        'Each variant must be written for the control part and for the data part at least its floor (else '
+        'INCONCLUSIVE); a variant that the stdlib decoder of its format does not give back is given up (counted '
+        'var-given-up:*, reaches no floor).  Every third member-set case has its part members written with such '
+        'variants (light ones).  All queries of a package are judged as before; M.var.query counts those made on a '
+        'package with at least one variant part.')
 ASSUMPTIONS = [
     'vp.models.arwriter writes a well-formed ar archive (checked against `ar t` / dpkg-deb in the thorough tier when installed)',
     'stdlib tarfile/gzip/bz2/lzma produce valid tarballs; tar members are written with the ./ prefix (dpkg convention, the form the reader documents)',
@@ -103,6 +133,12 @@ ASSUMPTIONS = [
     'edge names stay inside the name domain of the statement: no empty, "." or ".." COMPONENT, no leading "/" or "./", first character not a blank, only LF-free printable ASCII; ".." occurs only as part of a longer component',
     'iteration (__iter__) is judged modulo the three documented spellings and modulo directory / symlink / root entries: each packed regular file must be listed at least once, every listed name must be a packed file, directory, symlink or the root; the spelling that is listed must be accepted by has_file/get_content of the same part.  Order and multiplicity are not judged',
     'control-part extra members with sub-directories (etc..d/x) are written without directory entries; maintainer scripts / md5sums / control keep their standard names',
+    'encoder variants: "gz / bz2 / xz / lzma-compressed" is read as "any valid file of that format": every variant is what the format\'s own tool chain can write (gzip header fields and several members per RFC 1952; several bzip2 / xz streams in one file as bzip2 -c a b / xz -c a b produce; xz checks and filter chains of the .xz specification; .lzma headers with any lc/lp/pb with lc+lp<=4, dictionary sizes of the form 2^n or 2^n+2^(n-1), unknown or known uncompressed size).  No variant is a damaged or truncated stream',
+    'generator guard: a variant is used only if the stdlib decoder of its format (gzip.GzipFile / bz2.BZ2File / lzma.LZMAFile / tarfile mode r:), applied directly to the part bytes without python-debian, returns exactly the tar bytes (all tar entries for uncompressed parts); otherwise the part is written with the encoder defaults and counted var-given-up:* (so it reaches no floor).  What CPython itself cannot read is thereby never demanded of the library: xz stream padding between concatenated streams and dictionary sizes above 64 MiB are not generated at all',
+    'in the thorough tier every variant is additionally decoded by the installed gzip / bzip2 / xz / xz --format=lzma / tar, and every single-stream variant is put into a package read by dpkg-deb (generator sanity: a disagreement makes the run inconclusive, never a violation; tool not installed = skipped).  Multi-stream parts are not shown to dpkg-deb (it decodes one stream per part); they are within the statement as read above',
+    'zstd parts are not generated: debfile.PART_EXTS of the library has no zst entry, so the statement\'s list (none/gz/bz2/xz/lzma) is the whole supported set here',
+    'tar:ustar variants are assigned only to parts whose names and link targets are <= 90 bytes (the next variant of the round robin is taken otherwise); "min-eof" ends the archive with exactly two zero blocks (tar -b1), which POSIX defines as the end-of-archive marker',
+    'a member-set case with encoder variants is judged by the same acceptance predicate; variants only change the bytes behind the part names',
 ]
 ANCHORS = ['debian.debfile:DebFile.__init__',
            'debian.debfile:DebPart.tgz',
@@ -228,6 +264,301 @@ def compress(kind, raw, level=1):
     raise ValueError(kind)
 
 
+# --- encoder-parameter variants of the parts ---------------------------------------------------------------------
+# A variant is a JSON dict {'id': label, ...parameters}; encode_variant() interprets the parameters generically, so
+# a hand-written replay may carry any combination.  Every variant is a VALID stream of its format (what gzip / bzip2
+# / xz / xz --format=lzma / tar write when asked for other than their defaults); nothing here is a corrupt stream.
+
+GZ_STRATEGY = {'default': zlib.Z_DEFAULT_STRATEGY, 'filtered': zlib.Z_FILTERED, 'huffman': zlib.Z_HUFFMAN_ONLY,
+               'rle': zlib.Z_RLE, 'fixed': zlib.Z_FIXED}
+XZ_CHECK = {'none': lzma.CHECK_NONE, 'crc32': lzma.CHECK_CRC32, 'crc64': lzma.CHECK_CRC64, 'sha256': lzma.CHECK_SHA256}
+XZ_FILTER = {'lzma1': lzma.FILTER_LZMA1, 'lzma2': lzma.FILTER_LZMA2, 'delta': lzma.FILTER_DELTA, 'x86': lzma.FILTER_X86,
+             'arm': lzma.FILTER_ARM, 'armthumb': lzma.FILTER_ARMTHUMB, 'powerpc': lzma.FILTER_POWERPC,
+             'ia64': lzma.FILTER_IA64, 'sparc': lzma.FILTER_SPARC}
+LZMA_MF = {'hc3': lzma.MF_HC3, 'hc4': lzma.MF_HC4, 'bt2': lzma.MF_BT2, 'bt3': lzma.MF_BT3, 'bt4': lzma.MF_BT4}
+LZMA_MODE = {'fast': lzma.MODE_FAST, 'normal': lzma.MODE_NORMAL}
+
+
+def gz_member(data, v):
+    """One gzip member (RFC 1952) written by hand around a raw deflate stream: every header field is a parameter."""
+    level = v.get('level', 6)
+    co = zlib.compressobj(level, zlib.DEFLATED, -v.get('wbits', 15), v.get('memlevel', 8),
+                          GZ_STRATEGY[v.get('strategy', 'default')])
+    body = co.compress(data) + co.flush()
+    flg, opt = 0, b''
+    if v.get('ftext'):
+        flg |= 1
+    if v.get('fextra') is not None:
+        x = v['fextra'].encode('latin-1')
+        flg |= 4
+        opt += struct.pack('<H', len(x)) + x
+    if v.get('fname') is not None:
+        flg |= 8
+        opt += v['fname'].encode('latin-1') + b'\0'
+    if v.get('fcomment') is not None:
+        flg |= 16
+        opt += v['fcomment'].encode('latin-1') + b'\0'
+    if v.get('fhcrc'):
+        flg |= 2
+    xfl = v.get('xfl', 2 if level == 9 else 4 if level == 1 else 0)
+    hdr = b'\x1f\x8b\x08' + bytes([flg]) + struct.pack('<L', v.get('mtime', 0)) + bytes([xfl, v.get('os', 3)]) + opt
+    if v.get('fhcrc'):
+        hdr += struct.pack('<H', zlib.crc32(hdr) & 0xffff)
+    return hdr + body + struct.pack('<LL', zlib.crc32(data) & 0xffffffff, len(data) & 0xffffffff)
+
+
+def lzma_filters(specs):
+    out = []
+    for f in specs:
+        d = {'id': XZ_FILTER[f['f']]}
+        for k in ('dict_size', 'lc', 'lp', 'pb', 'nice_len', 'depth', 'dist', 'start_offset'):
+            if k in f:
+                d[k] = f[k]
+        if 'preset' in f:
+            d['preset'] = f['preset'] | (lzma.PRESET_EXTREME if f.get('extreme') else 0)
+        if 'mf' in f:
+            d['mf'] = LZMA_MF[f['mf']]
+        if 'mode' in f:
+            d['mode'] = LZMA_MODE[f['mode']]
+        out.append(d)
+    return out
+
+
+def encode_piece(kind, data, v):
+    if kind == 'gz':
+        if v.get('stdlib') == 'compress':
+            return gzip.compress(data, compresslevel=v.get('level', 9), mtime=v.get('mtime', 0))
+        if v.get('stdlib') == 'GzipFile':       # what `gzip file` leaves behind: original name and mtime in the header
+            buf = io.BytesIO()
+            with gzip.GzipFile(filename=v.get('fname', 'data.tar'), mode='wb', compresslevel=v.get('level', 9),
+                               fileobj=buf, mtime=v.get('mtime', 0)) as g:
+                g.write(data)
+            return buf.getvalue()
+        return gz_member(data, v)
+    if kind == 'bz2':
+        return bz2.compress(data, v.get('level', 9))
+    preset = v.get('preset', 6) | (lzma.PRESET_EXTREME if v.get('extreme') else 0)
+    if kind == 'xz':
+        check = XZ_CHECK[v.get('check', 'crc64')]
+        if v.get('filters'):
+            return lzma.compress(data, format=lzma.FORMAT_XZ, check=check, filters=lzma_filters(v['filters']))
+        return lzma.compress(data, format=lzma.FORMAT_XZ, check=check, preset=preset)
+    if kind == 'lzma':
+        if v.get('filters'):
+            blob = lzma.compress(data, format=lzma.FORMAT_ALONE, filters=lzma_filters(v['filters']))
+        else:
+            blob = lzma.compress(data, format=lzma.FORMAT_ALONE, preset=preset)
+        if v.get('known_size'):     # header states the uncompressed size (LZMA SDK style) instead of "unknown" (-1)
+            blob = blob[:5] + struct.pack('<Q', len(data)) + blob[13:]
+        return blob
+    raise ValueError(kind)
+
+
+def encode_variant(kind, raw, v):
+    """tar bytes -> part bytes under variant v.  'cuts' (permille positions) split the tar into pieces that become
+    separate gzip members / bzip2 streams / xz streams, concatenated; 'per' = per-piece parameter overrides."""
+    if kind == '':
+        return raw
+    pts = [0] + [len(raw) * c // 1000 for c in v.get('cuts', [])] + [len(raw)]
+    per = v.get('per') or []
+    out = []
+    for i in range(len(pts) - 1):
+        pv = dict(v)
+        if per:
+            pv.update(per[i % len(per)])
+        out.append(encode_piece(kind, raw[pts[i]:pts[i + 1]], pv))
+    return b''.join(out)
+
+
+def decodes_back(kind, blob, raw, nentries):
+    """Guard of the GENERATOR: does the stdlib decoder of this format, applied directly to the part bytes (no
+    python-debian involved), give the tar bytes back?  Only then is the variant used."""
+    try:
+        if kind == 'gz':
+            return gzip.GzipFile(fileobj=io.BytesIO(blob)).read() == raw
+        if kind == 'bz2':
+            return bz2.BZ2File(io.BytesIO(blob)).read() == raw
+        if kind in ('xz', 'lzma'):
+            return lzma.LZMAFile(io.BytesIO(blob)).read() == raw
+        with tarfile.open(fileobj=io.BytesIO(blob), mode='r:') as t:
+            return len(t.getmembers()) == nentries
+    except Exception:       # noqa - any failure means: do not use this variant
+        return False
+
+
+def build_part(comp, entries, fmt, level, v):
+    """-> (part bytes, id of the encoder variant used or None, id of a variant that had to be given up or None)"""
+    given_up = None
+    if v:
+        try:
+            tar = mktar(entries, v.get('tar', fmt), eof=v.get('eof'))
+            blob = encode_variant(comp, tar, v)
+            if decodes_back(comp, blob, tar, len(entries)):
+                return blob, v.get('id', 'unnamed'), None
+        except Exception:   # noqa - encoder of this Python refuses the parameters: fall back to its defaults
+            pass
+        given_up = v.get('id', 'unnamed')
+    return compress(comp, mktar(entries, fmt), level), None, given_up
+
+
+def _v(vid, **kw):
+    d = {'id': vid}
+    d.update(kw)
+    return d
+
+
+def _lz(kind, **kw):
+    d = {'f': kind}
+    d.update(kw)
+    return d
+
+
+def make_variants():
+    V = {}
+    V[''] = [_v('tar:gnu', tar='gnu'), _v('tar:pax', tar='pax'), _v('tar:ustar', tar='ustar'),
+             _v('tar:gnu/min-eof', tar='gnu', eof='min'), _v('tar:pax/min-eof', tar='pax', eof='min'),
+             _v('tar:ustar/min-eof', tar='ustar', eof='min')]
+    gz = [_v('gz:level-%d' % l, level=l) for l in range(10)]
+    gz += [_v('gz:strategy-%s' % s, level=6, strategy=s) for s in ('fixed', 'huffman', 'rle', 'filtered')]
+    gz += [_v('gz:window-512-memlevel-1', level=9, wbits=9, memlevel=1),
+           _v('gz:mtime', level=6, mtime=1700000000), _v('gz:mtime-max', level=6, mtime=0xffffffff),
+           _v('gz:fname', level=6, fname='data.tar', mtime=1234567890),
+           _v('gz:fname-latin1', level=6, fname='d\xe4ta archive.tar'),
+           _v('gz:fcomment', level=6, fcomment='built by hand'),
+           _v('gz:fextra', level=6, fextra='AP\x04\x00abcd'),
+           _v('gz:fhcrc', level=6, fhcrc=1), _v('gz:ftext', level=6, ftext=1),
+           _v('gz:all-header-fields', level=9, ftext=1, fhcrc=1, fextra='zz\x02\x00\x00\xff', fname='control.tar',
+              fcomment='c', mtime=999999999, os=0),
+           _v('gz:os-fat', level=6, os=0), _v('gz:os-unknown', level=6, os=255),
+           _v('gz:xfl-0-at-level-9', level=9, xfl=0),
+           _v('gz:stdlib-compress-9-mtime', stdlib='compress', level=9, mtime=1600000000),
+           _v('gz:stdlib-compress-1', stdlib='compress', level=1),
+           _v('gz:stdlib-GzipFile-name-mtime', stdlib='GzipFile', fname='data.tar', level=6, mtime=1500000000),
+           _v('gz:members-2', level=6, cuts=[400]),
+           _v('gz:members-3-mixed', level=6, cuts=[10, 600], per=[{'level': 1}, {'level': 9, 'fname': 'part2'}, {'level': 0}]),
+           _v('gz:members-empty-first', level=6, cuts=[0]), _v('gz:members-empty-last', level=6, cuts=[1000]),
+           _v('gz:members-2-at-block', level=1, cuts=[512 * 1000 // 10240])]
+    V['gz'] = gz
+    V['bz2'] = [_v('bz2:level-%d' % l, level=l) for l in range(1, 10)] + \
+               [_v('bz2:streams-2', level=9, cuts=[300]),
+                _v('bz2:streams-3-mixed', level=5, cuts=[50, 500], per=[{'level': 1}, {'level': 9}, {'level': 5}])]
+    xz = [_v('xz:check-%s' % c, check=c, preset=1) for c in ('none', 'crc32', 'crc64', 'sha256')
+          if lzma.is_check_supported(XZ_CHECK[c])]
+    xz += [_v('xz:preset-%d' % p, preset=p) for p in (0, 2, 3, 4, 5, 9)]      # 7, 8: as costly as 9, same container bytes
+    xz += [_v('xz:preset-3e', preset=3, extreme=1), _v('xz:preset-9e', preset=9, extreme=1)]
+    xz += [_v('xz:delta-1', filters=[_lz('delta', dist=1), _lz('lzma2', preset=1)]),
+           _v('xz:delta-256', filters=[_lz('delta', dist=256), _lz('lzma2', preset=6)])]
+    xz += [_v('xz:bcj-%s' % b, filters=[_lz(b), _lz('lzma2', preset=1)])
+           for b in ('x86', 'arm', 'armthumb', 'powerpc', 'ia64', 'sparc')]
+    xz += [_v('xz:delta+x86', filters=[_lz('delta', dist=4), _lz('x86'), _lz('lzma2', preset=0)]),
+           _v('xz:x86+delta+sha256', check='sha256' if lzma.is_check_supported(lzma.CHECK_SHA256) else 'crc32',
+              filters=[_lz('x86', start_offset=16), _lz('delta', dist=2), _lz('lzma2', preset=2)]),
+           _v('xz:arm+powerpc+delta', filters=[_lz('arm'), _lz('powerpc'), _lz('delta', dist=16), _lz('lzma2', preset=1)]),
+           _v('xz:lzma2-lc0-lp2-pb0', filters=[_lz('lzma2', preset=1, lc=0, lp=2, pb=0)]),
+           _v('xz:lzma2-lc4-lp0-pb0', filters=[_lz('lzma2', preset=1, lc=4, lp=0, pb=0)]),
+           _v('xz:lzma2-lc0-lp4-pb4', filters=[_lz('lzma2', preset=1, lc=0, lp=4, pb=4)]),
+           _v('xz:lzma2-dict-4096', filters=[_lz('lzma2', preset=0, dict_size=4096)]),
+           _v('xz:lzma2-dict-1.5MiB', filters=[_lz('lzma2', preset=1, dict_size=(1 << 20) + (1 << 19))]),
+           _v('xz:streams-2', preset=1, cuts=[350]),
+           _v('xz:streams-3-mixed', preset=1, cuts=[20, 700],
+              per=[{'check': 'none'}, {'check': 'crc32', 'preset': 0}, {'filters': [_lz('delta', dist=1), _lz('lzma2', preset=1)]}]),
+           _v('xz:streams-empty-first', preset=1, cuts=[0]), _v('xz:streams-empty-last', preset=1, cuts=[1000])]
+    V['xz'] = xz
+    lz = [_v('lzma:preset-%d' % p, preset=p) for p in range(10)]
+    lz += [_v('lzma:preset-2e', preset=2, extreme=1), _v('lzma:preset-9e', preset=9, extreme=1)]
+    lz += [_v('lzma:lc%d-lp%d-pb%d' % (lc, lp, pb), filters=[_lz('lzma1', preset=1, lc=lc, lp=lp, pb=pb)])
+           for lc, lp, pb in ((4, 0, 0), (0, 0, 0), (0, 4, 4), (1, 3, 1), (3, 1, 0), (3, 0, 4), (2, 2, 2), (0, 0, 2))]
+    lz += [_v('lzma:dict-4096', filters=[_lz('lzma1', preset=1, dict_size=4096)]),
+           _v('lzma:dict-6144', filters=[_lz('lzma1', preset=1, dict_size=5000)]),
+           _v('lzma:dict-64KiB-bt2', filters=[_lz('lzma1', dict_size=1 << 16, mf='bt2', nice_len=273, depth=10)]),
+           _v('lzma:dict-1.5MiB-hc3-fast', filters=[_lz('lzma1', dict_size=(1 << 20) + (1 << 19), mf='hc3', mode='fast')]),
+           _v('lzma:dict-3MiB-lc4-pb0', filters=[_lz('lzma1', preset=3, dict_size=3 << 20, lc=4, lp=0, pb=0)]),
+           _v('lzma:known-size', preset=1, known_size=1),
+           _v('lzma:known-size-lc0-lp0-pb0', known_size=1, filters=[_lz('lzma1', preset=0, lc=0, lp=0, pb=0)])]
+    V['lzma'] = lz
+    return V
+
+
+VARIANTS = make_variants()
+N_VARIANTS = sum(len(l) for l in VARIANTS.values())
+VARIANTS_TEXT = '%d variants - %s' % (N_VARIANTS, ', '.join('%s %d' % (c or 'tar', len(l)) for c, l in sorted(VARIANTS.items())))
+RULE = RULE.replace('@VARIANTS@', VARIANTS_TEXT)
+
+
+def is_heavy(v):
+    """presets >= 7 make the encoder clear a 16..64 MiB hash table (35..60 ms per part): kept out of the set cases"""
+    if v.get('preset', 0) >= 7:
+        return True
+    return any(f.get('preset', 0) >= 7 or f.get('dict_size', 0) >= (1 << 24) for f in v.get('filters', []))
+
+
+LIGHT_VARIANTS = dict((c, [v for v in l if not is_heavy(v)]) for c, l in VARIANTS.items())
+
+# Floors of the encoder-variant class: EVERY (compression, variant) must have been written - and not given up by the
+# generator guard - for the control part AND for the data part, else the run is inconclusive.  The round robin makes
+# the counts of one compression equal up to +-2, so one floor per compression (about 50% of the measured minimum over
+# its variants; quick: min over seeds 0-3, thorough: seed 0).
+VAR_FLOOR = {'quick': {'': 20, 'gz': 4, 'bz2': 12, 'xz': 4, 'lzma': 5},
+             'thorough': {'': 1400, 'gz': 250, 'bz2': 780, 'xz': 270, 'lzma': 310}}
+VAR_FLOOR_OTHER = {
+    'quick': {'monitors': {'M.var.pkg': 930, 'M.var.query': 66000, 'M.var.accepted-served': 140},
+              'counters': {'var:control:any': 750, 'var:data:any': 750, 'var:control:encoder-defaults': 240,
+                           'var:data:encoder-defaults': 240, 'set:with-encoder-variants': 3300,
+                           'set:with-encoder-variants:acceptable': 140, 'set:with-encoder-variants:defective': 3200}},
+    'thorough': {'monitors': {'M.var.pkg': 56000, 'M.var.query': 3900000, 'M.var.accepted-served': 11000},
+                 'counters': {'var:control:any': 45000, 'var:data:any': 45000, 'var:control:encoder-defaults': 14500,
+                              'var:data:encoder-defaults': 14500, 'set:with-encoder-variants': 36000,
+                              'set:with-encoder-variants:acceptable': 11000, 'set:with-encoder-variants:defective': 23000}},
+}
+for _tier in ('quick', 'thorough'):
+    for _comp, _lst in VARIANTS.items():
+        for _var in _lst:
+            for _part in ('control', 'data'):
+                FLOORS[_tier]['counters']['var:%s:%s' % (_part, _var['id'])] = VAR_FLOOR[_tier][_comp]
+    FLOORS[_tier]['monitors'].update(VAR_FLOOR_OTHER[_tier]['monitors'])
+    FLOORS[_tier]['counters'].update(VAR_FLOOR_OTHER[_tier]['counters'])
+
+
+def ustar_ok(names):
+    return all(len(n.encode('utf-8')) <= 90 for n in names)
+
+
+def part_names(case, part):
+    """names (and link targets) the tar format of this part has to hold"""
+    if part == 'control':
+        return ['control', 'md5sums'] + [n for n, _ in case['scripts']] + [n for n, _ in case.get('extra', [])]
+    return [n for n, _ in case['files']] + [x for l in case.get('links', []) for x in l]
+
+
+def assign_variants(case, state, offset=0):
+    """encoder-variant class: three of four packages with a given compression of a given part get the next variant
+    of that compression (per-shard round robin, so every variant is met by every shard for both parts); the fourth
+    keeps the encoder defaults (the `level` path)."""
+    for part, ck, vk in (('control', 'cc', 'cv'), ('data', 'dc', 'dv')):
+        comp = case[ck]
+        k = state.get((part, comp, 'n'), 0)
+        state[(part, comp, 'n')] = k + 1
+        if k % 4 == 3:
+            continue
+        lst = VARIANTS[comp]
+        idx = state.get((part, comp, 'i'), offset)
+        for step in range(len(lst)):
+            v = lst[(idx + step) % len(lst)]
+            if v.get('tar') != 'ustar' or ustar_ok(part_names(case, part)):
+                break
+        state[(part, comp, 'i')] = idx + step + 1
+        case[vk] = json.loads(json.dumps(v))
+    return case
+
+
+def variant_text(case):
+    bits = []
+    for part, vk in (('control', 'cv'), ('data', 'dv')):
+        if case.get(vk):
+            bits.append('%s part written with %s' % (part, json.dumps(case[vk], sort_keys=True, ensure_ascii=True)))
+    return (' [encoder parameters: ' + '; '.join(bits) + ']') if bits else ''
+
+
 def materialise(spec):
     """content spec -> bytes ({'lit': latin-1 text} | {'prng': [seed, size]} | {'rep': [latin-1 unit, count]})"""
     if 'lit' in spec:
@@ -239,9 +570,12 @@ def materialise(spec):
     return unit.encode('latin-1') * count
 
 
-def mktar(entries, fmt):
-    """entries: (name relative to the root, type 'f'|'d'|'l', payload, mode, mtime); name '' = the root dir."""
+def mktar(entries, fmt, eof=None):
+    """entries: (name relative to the root, type 'f'|'d'|'l', payload, mode, mtime); name '' = the root dir.
+    eof='min': the archive ends with exactly the two zero blocks the format asks for (`tar -b1`), not padded to
+    tarfile's 10240-byte record."""
     buf = io.BytesIO()
+    end = None
     with tarfile.open(fileobj=buf, mode='w', format=TARFMT[fmt], encoding='utf-8') as t:
         for name, typ, payload, mode, mtime in entries:
             if typ == 'd':
@@ -259,6 +593,9 @@ def mktar(entries, fmt):
                 t.addfile(ti, io.BytesIO(payload))
             else:
                 t.addfile(ti)
+        end = t.offset
+    if eof == 'min':
+        return buf.getvalue()[:end] + b'\0' * 1024
     return buf.getvalue()
 
 
@@ -324,10 +661,12 @@ def build_pkg(case):
                     dentries.append((p, 'd', None, 0o755, 0))
         dentries.append((n, 'l', target, 0o777, 0))
     level = case.get('level', 1)
+    cblob, cvar, cgiven = build_part(case['cc'], centries, fmt, level, case.get('cv'))
+    dblob, dvar, dgiven = build_part(case['dc'], dentries, fmt, level, case.get('dv'))
     blobs = {
         'info': (INFO, case.get('info', '2.0\n').encode('latin-1')),
-        'control': (part_name('control', case['cc']), compress(case['cc'], mktar(centries, fmt), level)),
-        'data': (part_name('data', case['dc']), compress(case['dc'], mktar(dentries, fmt), level)),
+        'control': (part_name('control', case['cc']), cblob),
+        'data': (part_name('data', case['dc']), dblob),
     }
     ar = case['ar']
     members = []
@@ -343,7 +682,9 @@ def build_pkg(case):
     model = {'fields': [tuple(f) for f in case['fields']], 'control_raw': ctl, 'md5_raw': md5,
              'scripts': dict(scripts), 'files': files, 'dirs': dirs, 'links': [l[0] for l in links],
              'md5': dict((n, hashlib.md5(d).hexdigest()) for n, d in files),
-             'cfiles': [(n, d) for n, d in cmembers]}
+             'cfiles': [(n, d) for n, d in cmembers],
+             'variants': {'control': cvar, 'data': dvar}, 'variants_given_up': {'control': cgiven, 'data': dgiven},
+             'part_head': {'control': cblob[:8], 'data': dblob[:8]}}
     return raw, model
 
 
@@ -853,17 +1194,49 @@ STD_CONTROL = [('Package', 'stdpkg'), ('Version', '1.0'), ('Description', 'std\n
 STD_FILE = ('usr/share/std pkg/.x y', b'payload \x00\xff of the standard data part\n')
 
 
-def std_blob(name):
-    """tiny valid content behind every member name used by set cases"""
+def STD_CONTROL_ENTRIES():
+    ctl = control_text(STD_CONTROL)
+    md5 = ('%s  %s\n' % (hashlib.md5(STD_FILE[1]).hexdigest(), STD_FILE[0])).encode()
+    return [('', 'd', None, 0o755, 0), ('control', 'f', ctl, 0o644, 0), ('md5sums', 'f', md5, 0o644, 0),
+            ('postinst', 'f', b'#!/bin/sh\n', 0o755, 0)]
+
+
+def set_variants(names, k):
+    """encoder variants for the part members of a set case: member at position p gets variant number k + p of its
+    compression (light variants only); -> list parallel to names (None = encoder defaults / not a part)"""
+    out = []
+    for p, n in enumerate(names):
+        if n.startswith('control.tar') or n.startswith('data.tar'):
+            comp = n[n.index('.tar') + 4:].lstrip('.')
+            lst = LIGHT_VARIANTS[comp]
+            out.append(lst[(k + p) % len(lst)])
+        else:
+            out.append(None)
+    return out
+
+
+def std_blob(name, v=None):
+    """tiny valid content behind every member name used by set cases; v = encoder variant of a part (or None)"""
+    if v is not None:
+        base = name.lstrip('_')
+        if not (base.startswith('control.tar') or base.startswith('data.tar')):
+            return std_blob(name)
+        key = (name, json.dumps(v, sort_keys=True))
+        if key not in _STD:
+            comp = base[base.index('.tar') + 4:].lstrip('.')
+            if base.startswith('control.tar'):
+                entries = STD_CONTROL_ENTRIES()
+            else:
+                entries = [('', 'd', None, 0o755, 0), (STD_FILE[0], 'f', STD_FILE[1], 0o644, 0)]
+            blob, used, _ = build_part(comp, entries, 'gnu', 1, v)
+            _STD[key] = (blob, used)
+        return _STD[key][0]
     if name not in _STD:
         if name == INFO or name == '_debian-binary':
             _STD[name] = b'2.0\n'
         elif name.lstrip('_').startswith('control.tar'):
             comp = name.lstrip('_')[len('control.tar'):].lstrip('.')
-            ctl = control_text(STD_CONTROL)
-            md5 = ('%s  %s\n' % (hashlib.md5(STD_FILE[1]).hexdigest(), STD_FILE[0])).encode()
-            tar = mktar([('', 'd', None, 0o755, 0), ('control', 'f', ctl, 0o644, 0), ('md5sums', 'f', md5, 0o644, 0),
-                         ('postinst', 'f', b'#!/bin/sh\n', 0o755, 0)], 'gnu')
+            tar = mktar(STD_CONTROL_ENTRIES(), 'gnu')
             _STD[name] = compress(comp, tar)
         elif name.lstrip('_').startswith('data.tar'):
             comp = name.lstrip('_')[len('data.tar'):].lstrip('.')
@@ -890,38 +1263,52 @@ def setup(ctx):
     ctx.extra['exhaustive_subspaces'].append(
         'the %d listed edge names (".." inside a component, leading dots, blanks): each one as a data file and as a '
         'control-part member at least once per run, all three spellings' % len(EDGE))
+    ctx.extra['exhaustive_subspaces'].append(
+        'the listed encoder variants (%s): each one written for the control part and for the data part every run' % VARIANTS_TEXT)
     if ctx.tier == 'thorough':
         ctx.extra['dpkg_deb_crosscheck'] = {'packages': 0, 'rejected': 0}
+        ctx.extra['encoder_variant_crosscheck'] = {'variants': 0, 'rejected': 0, 'tool-not-installed': 0}
 
 
 def cases(ctx):
     # (1) enumerated member sets
     i = 0
+
+    def with_variants(case, k):
+        # encoder-variant class in the set cases: every third set has its part members written with non-default
+        # encoder parameters (round robin over the light variants)
+        if k % 3 == 1:
+            var = set_variants(case['members'], k // 3 + ctx.shard)
+            if any(var):
+                case['var'] = var
+        return case
+
     for seq in enum_small_sequences():
         if ctx.mine(i):
-            yield {'kind': 'set', 'members': seq, 'style': 'gnu' if (i // ctx.nshards) % 2 else 'bare',
-                   'open': 'filename' if (i // ctx.nshards) % 7 == 3 else 'fileobj'}
+            yield with_variants({'kind': 'set', 'members': seq, 'style': 'gnu' if (i // ctx.nshards) % 2 else 'bare',
+                                 'open': 'filename' if (i // ctx.nshards) % 7 == 3 else 'fileobj'}, i // ctx.nshards)
         i += 1
     for seq in enum_focused_sets():
         if ctx.mine(i):
-            yield {'kind': 'set', 'members': seq, 'style': 'gnu' if (i // ctx.nshards) % 2 else 'bare',
-                   'open': 'filename' if (i // ctx.nshards) % 61 == 3 else 'fileobj'}
+            yield with_variants({'kind': 'set', 'members': seq, 'style': 'gnu' if (i // ctx.nshards) % 2 else 'bare',
+                                 'open': 'filename' if (i // ctx.nshards) % 61 == 3 else 'fileobj'}, i // ctx.nshards)
         i += 1
     # (2) seeded larger multisets
     r = ctx.rng('sets')
-    for _ in range(ctx.size(RANDOM_SETS['quick'], RANDOM_SETS['thorough'])):
-        yield {'kind': 'set', 'members': gen_random_set(r), 'style': r.choice(['bare', 'gnu']),
-               'open': 'filename' if r.random() < 0.03 else 'fileobj'}
+    for k in range(ctx.size(RANDOM_SETS['quick'], RANDOM_SETS['thorough'])):
+        yield with_variants({'kind': 'set', 'members': gen_random_set(r), 'style': r.choice(['bare', 'gnu']),
+                             'open': 'filename' if r.random() < 0.03 else 'fileobj'}, k)
     # (3) packages: the 25 compression pairs are cycled (so each shard covers all of them), rest of the
     #     description is seeded
     n = ctx.size(PKGS['quick'], PKGS['thorough'])
+    vstate = {}
     for j in range(n):
         r = ctx.rng('pkg', j)
         if j < 50 or r.random() < 0.5:
             cc, dc = COMP[j % 5], COMP[(j // 5) % 5]
         else:
             cc, dc = r.choice(COMP), r.choice(COMP)
-        yield gen_pkg(r, j * ctx.nshards + ctx.shard, cc, dc)
+        yield assign_variants(gen_pkg(r, j * ctx.nshards + ctx.shard, cc, dc), vstate, offset=5 * ctx.shard)
     # (4) generator sanity against the real tools (thorough, shard 0 only; never a verdict input)
     if ctx.tier == 'thorough' and ctx.shard == 0 and shutil.which('dpkg-deb'):
         for j in range(60):
@@ -937,6 +1324,34 @@ def cases(ctx):
             case['ctl_final_nl'] = True
             case['kind'] = 'dpkgdeb'
             yield case
+    # (5) generator sanity of the encoder variants (thorough, shard 0 only; never a verdict input): every variant is
+    #     decoded by the real tool of its format (gzip / bzip2 / xz / xz --format=lzma / tar), and single-stream
+    #     variants are put into packages that dpkg-deb has to read
+    if ctx.tier == 'thorough' and ctx.shard == 0:
+        for comp in COMP:
+            for v in VARIANTS[comp]:
+                yield {'kind': 'toolcheck', 'comp': comp, 'v': v}
+        if shutil.which('dpkg-deb'):
+            j = 0
+            for comp in COMP:
+                for v in VARIANTS[comp]:
+                    if v.get('cuts'):
+                        continue            # dpkg-deb reads one stream per part
+                    j += 1
+                    r = ctx.rng('dpkgdeb-variant', j)
+                    cc = ['', 'gz', 'xz'][j % 3]
+                    case = gen_pkg(r, j, cc, comp)
+                    if v.get('tar') == 'ustar' and not ustar_ok(part_names(case, 'data')):
+                        continue
+                    single = [w for w in VARIANTS[cc] if not w.get('cuts') and w.get('tar') != 'ustar']
+                    case['dv'] = v
+                    case['cv'] = single[(j // 3) % len(single)]
+                    case['ar'] = {'order': ['info', 'control', 'data'], 'style': 'bare', 'hdr': []}
+                    case['fields'] = [['Package', 'pkg%d' % j], ['Version', '1.0-1'], ['Architecture', 'all'],
+                                      ['Maintainer', 'A B <a@example.org>'], ['Description', 'short text\n long line']]
+                    case['ctl_final_nl'] = True
+                    case['kind'] = 'dpkgdeb'
+                    yield case
 
 
 class Findings(list):
@@ -980,21 +1395,44 @@ def check_pkg(ctx, case, stats):
     from debian import debfile
     out = Findings()
 
+    raw, model = build_pkg(case)
+    var_parts = [p for p in ('control', 'data') if model['variants'][p]]
+
     def mon(name, n=1):
         if stats is not None:
             stats.mon(name, n)
+            if name == 'M.query' and var_parts:
+                stats.mon('M.var.query', n)     # a query judged on a package with a non-default encoder variant
 
     def count(name, n=1):
         if stats is not None:
             stats.count(name, n)
 
-    raw, model = build_pkg(case)
     opener, path = open_deb(ctx, raw, case.get('open', 'fileobj'))
     count('open:' + case.get('open', 'fileobj'))
     count('ar-style:' + case['ar'].get('style', 'bare'))
     count('tarfmt:' + case.get('tarfmt', 'gnu'))
     count('config:%s/%s' % (case['cc'] or 'none', case['dc'] or 'none'))
     mon('M.pkg')
+    # encoder-variant class: counted from what was actually written (a variant the generator had to give up because
+    # the stdlib decoder does not give the tar bytes back is counted apart and never reaches a floor)
+    has_variant = False
+    for part in ('control', 'data'):
+        vid = model['variants'][part]
+        if vid:
+            has_variant = True
+            count('var:%s:%s' % (part, vid))
+            count('var:%s:any' % part)
+            comp = case['cc' if part == 'control' else 'dc']
+            if comp:    # leading bytes of the part as written (gz: magic+CM+FLG, bz2: magic+level, xz: stream flags, lzma: props+dict size)
+                head = model['part_head'][part]
+                count('var-head:%s:%s' % (comp, {'gz': head[:4], 'bz2': head[:4], 'xz': head[6:8], 'lzma': head[:5]}[comp].hex()))
+        elif case.get('cv' if part == 'control' else 'dv'):
+            count('var-given-up:%s:%s' % (part, model['variants_given_up'][part]))
+        else:
+            count('var:%s:encoder-defaults' % part)
+    if has_variant:
+        mon('M.var.pkg')
     try:
         deb = opener()
     except debfile.DebError as e:
@@ -1408,7 +1846,9 @@ def check_set(ctx, case, stats):
     style = case.get('style', 'bare')
     if style == 'gnu' and not all(arwriter.fits(n, 'gnu') for n in names):
         style = 'bare'
-    raw = arwriter.build_ar([(n, std_blob(n)) for n in names], style=style)
+    var = case.get('var') or []
+    var = [var[i] if i < len(var) else None for i in range(len(names))]
+    raw = arwriter.build_ar([(n, std_blob(n, v)) for n, v in zip(names, var)], style=style)
     want = acceptable(names)
     # a repeated identical name is ONE candidate (so it never makes a set defective), but the statement does not
     # promise that an archive with repeated members is readable either: for those, DebError is tolerated too.
@@ -1419,6 +1859,9 @@ def check_set(ctx, case, stats):
             stats.count('set:acceptable-with-repeated-member(either-outcome)')
         stats.count('set:size=%d' % min(len(names), 6))
         stats.count('set:acceptable' if want else 'set:defective')
+        if any(var):
+            stats.count('set:with-encoder-variants')
+            stats.count('set:with-encoder-variants:' + ('acceptable' if want else 'defective'))
         stats.count('ar-style:' + style)
         stats.count('open:' + case.get('open', 'fileobj'))
         s = set(names)
@@ -1458,6 +1901,8 @@ def check_set(ctx, case, stats):
         # accepted, as it must be: the chosen parts must serve the standard content
         if stats is not None:
             stats.mon('M.accepted-served')
+            if any(var):
+                stats.mon('M.var.accepted-served')
         try:
             got = deb.debcontrol()
             if [(k, got[k]) for k in got.keys()] != STD_CONTROL:
@@ -1546,11 +1991,20 @@ def _shrink_candidates(case):
             yield variant(files=f2)
     if case.get('level', 1) != 1:
         yield variant(level=1)
+    if case.get('cv') or case.get('dv'):        # non-default encoder parameters -> the encoder's defaults
+        yield variant(cv=None, dv=None)
+        if case.get('cv') and case.get('dv'):
+            yield variant(cv=None)
+            yield variant(dv=None)
+        for vk in ('cv', 'dv'):
+            v = case.get(vk)
+            if v and (v.get('cuts') or v.get('per')):     # several streams -> one
+                yield variant(**{vk: dict((k, x) for k, x in v.items() if k not in ('cuts', 'per'))})
     if case['cc'] or case['dc']:
-        yield variant(cc='', dc='')
+        yield variant(cc='', dc='', cv=None, dv=None)
         if case['cc'] and case['dc']:
-            yield variant(cc='')
-            yield variant(dc='')
+            yield variant(cc='', cv=None)
+            yield variant(dc='', dv=None)
     if not case.get('ctl_final_nl', True):
         yield variant(ctl_final_nl=True)
     if not case['md5'].get('final_nl', True):
@@ -1579,11 +2033,17 @@ def shrink_pkg(ctx, case, key, budget=60):
 
 def shrink_set(ctx, case, key):
     cur = case
+    if cur.get('var'):
+        cand = dict((k, v) for k, v in cur.items() if k != 'var')
+        if any(k == key for k, _ in check_set(ctx, cand, None)):
+            cur = cand
     progress = True
     while progress:
         progress = False
         for i in range(len(cur['members'])):
             cand = dict(cur, members=cur['members'][:i] + cur['members'][i + 1:], open='fileobj')
+            if cur.get('var'):
+                cand['var'] = cur['var'][:i] + cur['var'][i + 1:]
             if any(k == key for k, _ in check_set(ctx, cand, None)):
                 cur = cand
                 progress = True
@@ -1609,6 +2069,10 @@ def report(ctx, case, findings, shrinker):
                         small = case
             except Exception:
                 small = case
+        if small.get('kind') == 'pkg':
+            msg += variant_text(small)
+        elif any(small.get('var') or []):
+            msg += ' [part members written with encoder parameters %s]' % json.dumps(small['var'], sort_keys=True, ensure_ascii=True)
         ctx.violation(key, msg, small)
 
 
@@ -1674,6 +2138,8 @@ def run_case(ctx, case):
         report(ctx, case, findings, shrink_set)
     elif kind == 'dpkgdeb':
         dpkg_sanity(ctx, case)
+    elif kind == 'toolcheck':
+        tool_sanity(ctx, case)
     else:
         raise ValueError('unknown case kind %r' % kind)
 
@@ -1688,6 +2154,8 @@ def dpkg_sanity(ctx, case):
         f.write(raw)
     stat = ctx.extra.setdefault('dpkg_deb_crosscheck', {'packages': 0, 'rejected': 0})
     stat['packages'] += 1
+    if case.get('cv') or case.get('dv'):
+        stat['packages-with-encoder-variants'] = stat.get('packages-with-encoder-variants', 0) + 1
     env = dict(os.environ, LC_ALL='C.UTF-8')
     p1 = subprocess.run(['dpkg-deb', '-f', path, 'Package'], stdout=subprocess.PIPE, stderr=subprocess.PIPE, env=env)
     p2 = subprocess.run(['dpkg-deb', '--fsys-tarfile', path], stdout=subprocess.PIPE, stderr=subprocess.PIPE, env=env)
@@ -1707,12 +2175,47 @@ def dpkg_sanity(ctx, case):
         names = p3.stdout.decode().split('\n')[:-1]
         if p3.returncode != 0 or names != [INFO, part_name('control', case['cc']), part_name('data', case['dc'])]:
             ok = False
+    if (case.get('cv') and not model['variants']['control']) or (case.get('dv') and not model['variants']['data']):
+        ok = False      # the variant was given up by the generator guard: nothing was shown about it
     if not ok:
         stat['rejected'] += 1
-        ctx.inconclusive.append('generator sanity: dpkg-deb/ar disagree with the harness-built package (cc=%r dc=%r): %s %s'
-                                % (case['cc'], case['dc'], p1.stderr.decode('utf-8', 'replace')[:200],
+        ctx.inconclusive.append('generator sanity: dpkg-deb/ar disagree with the harness-built package (cc=%r dc=%r%s): %s %s'
+                                % (case['cc'], case['dc'], variant_text(case), p1.stderr.decode('utf-8', 'replace')[:200],
                                    p2.stderr.decode('utf-8', 'replace')[:200]))
     shutil.rmtree(d, ignore_errors=True)
+
+
+TOOLS = {'gz': ['gzip', '-dc'], 'bz2': ['bzip2', '-dc'], 'xz': ['xz', '--format=xz', '-dc'],
+         'lzma': ['xz', '--format=lzma', '-dc'], '': ['tar', '-tf', '-']}
+
+
+def tool_sanity(ctx, case):
+    """Generator sanity only: does the real decoder of the format read a part written with this encoder variant?
+    A failure says the GENERATOR is off (=> inconclusive), never that the library is.  Tool not installed: skipped."""
+    comp, v = case['comp'], case['v']
+    stat = ctx.extra.setdefault('encoder_variant_crosscheck', {'variants': 0, 'rejected': 0, 'tool-not-installed': 0})
+    cmd = TOOLS[comp]
+    if not shutil.which(cmd[0]):
+        stat['tool-not-installed'] += 1
+        return
+    entries = STD_CONTROL_ENTRIES() + [('usr/share/blob', 'f', random.Random(7).randbytes(30000), 0o644, 0),
+                                       ('usr/share/x y', 'f', b'ab\n' * 4000, 0o644, 0)]
+    blob, used, given = build_part(comp, entries, 'gnu', 1, v)
+    stat['variants'] += 1
+    ok = used is not None
+    err = ''
+    if ok:
+        tar = mktar(entries, v.get('tar', 'gnu'), eof=v.get('eof'))
+        p = subprocess.run(cmd, input=blob, stdout=subprocess.PIPE, stderr=subprocess.PIPE, env=dict(os.environ, LC_ALL='C.UTF-8'))
+        err = p.stderr.decode('utf-8', 'replace')[:200]
+        if comp:
+            ok = p.returncode == 0 and p.stdout == tar
+        else:
+            ok = p.returncode == 0 and len(p.stdout.decode('utf-8', 'replace').splitlines()) == len(entries)
+    if not ok:
+        stat['rejected'] += 1
+        ctx.inconclusive.append('generator sanity: %s does not read a %s part written with encoder variant %r (%s): %s'
+                                % (cmd[0], comp or 'tar', v.get('id'), 'stdlib round trip failed' if used is None else 'tool', err))
 
 
 def conclusive(tier, counters, monitor_evals, extra):
@@ -1733,7 +2236,10 @@ LEVEL_TEXT = ('Runtime monitoring: 2e3 (quick) / 1.2e5 (thorough) harness-assemb
               'bytes and text keys, has_file/get_content/get_file/in/[] under the spellings name, ./name, /name, plus '
               'never-packed names - is compared with the packing description; ~2e4 (quick) / ~2.2e5 (thorough) member-name '
               'sequences (complete enumerations of the small ones) are checked against the acceptance predicate, '
-              'demanding DebError and nothing else for defective ones.  Held-on-observed, not a proof.')
+              'demanding DebError and nothing else for defective ones.  Three of four parts are written with one of ~110 '
+              'non-default but valid encoder parameter sets (lzma lc/lp/pb/dictionary/presets/known size; xz checks, filter '
+              'chains, several streams; gzip header fields, levels, several members; bzip2 levels/streams; GNU/PAX/USTAR tar), '
+              'each one for both parts every run.  Held-on-observed, not a proof.')
 LEVEL_NOTE = ('Trusted: CPython tarfile/gzip/bz2/lzma, vp.models.arwriter (cross-checked with dpkg-deb and ar in the thorough '
               'tier), the packing description as the model.  Corrupt/truncated archives, GNU long ar names and non-"./" tar '
               'member spellings are outside the statement and not generated.')
